@@ -54,6 +54,17 @@ Theorem C10_newton_invariant : forall rnd n p A eps mi tol,
 Proof. exact newton_invariant. Qed.
 Print Assumptions C10_newton_invariant.
 
+(* coupled higher-order iteration (first Newton step + any number of Horner steps, early stop included): the
+   same invariant, and the residual the guard looks at, |A_ridge X^p - I|max, equals |M - I|max *)
+Theorem C10_higher_order_invariant : forall rnd fuel n p order b tol Ar,
+  (0 < p)%nat -> 0 < trace (R_ops rnd) n Ar ->
+  let s := fst (ho_loop (R_ops rnd) fuel n p order b tol (ho_init (R_ops rnd) n p Ar)) in
+  meq n (mmul (R_ops rnd) n (mpow (R_ops rnd) n (sX s) p) Ar) (sM s)
+  /\ mcommute (R_ops rnd) n (sX s) (sM s) /\ mcommute (R_ops rnd) n (sX s) Ar /\ mcommute (R_ops rnd) n (sM s) Ar
+  /\ ho_true_error (R_ops rnd) n p Ar (sX s) = err_to_id (R_ops rnd) n (sM s).
+Proof. exact higher_order_invariant. Qed.
+Print Assumptions C10_higher_order_invariant.
+
 (* "An iterative solver that reports convergence has met its tolerance": as control flow, for EVERY scalar
    instance (also the executed binary64 one) ... *)
 Theorem C10_converged_flag_sound_newton : forall F (Op : ops F) n p A eps mi tol,
